@@ -610,7 +610,21 @@ def attach_nf(hub=HUB):
 # =============================================================================================
 def idx_violations(c, extra_spellings=(), absent=("http://absent.example/none",), counts=None):
     """Compare get_record / get_records(cls) / records against a scan of get_records().
-    Only spellings whose resolution has no side effect are used here (printed name, full URI)."""
+    Only spellings whose resolution has no side effect are used here (printed name, full URI); and because a look-up of an unknown
+    identifier leaves an empty entry in the library's index (a defaultdict), the entries this probe adds are taken out again, so that
+    a monitored run and a plain run have the same internal state."""
+    idmap = getattr(c, "_id_map", None)
+    known = set(idmap.keys()) if isinstance(idmap, dict) else None
+    try:
+        return _idx_violations(c, extra_spellings, absent, counts)
+    finally:
+        if known is not None and c._id_map is idmap:
+            for k in [k for k in idmap.keys() if k not in known]:
+                if not idmap[k]:
+                    del idmap[k]
+
+
+def _idx_violations(c, extra_spellings=(), absent=("http://absent.example/none",), counts=None):
     out = []
     recs = c.get_records()
     if not isinstance(recs, list):
@@ -742,8 +756,17 @@ def attach_idx(hub=HUB, sample_every=1):
 # =============================================================================================
 # PURE -- exporting never mutates (C13)
 # =============================================================================================
+def pure_links(doc):
+    """Who owns what: the bundle objects of a document, whether each still says it belongs to the document (bundle.document) and
+    whether its namespace scope still inherits from the document's.  An operation that hands a bundle object to another document
+    leaves content and text alone and shows only here (and at the next build step on the bundle)."""
+    if not hasattr(doc, "_bundles"):
+        return ()
+    return tuple((id(b), b.document is doc, getattr(b._namespaces, "parent", None) is doc._namespaces) for b in doc._bundles.values())
+
+
 def pure_snapshot(doc):
-    return (strict.ordered(doc), strict.nsview(doc), strict.printed(doc))
+    return (strict.ordered(doc), strict.nsview(doc), strict.printed(doc), pure_links(doc))
 
 
 def pure_compare(before, after):
@@ -773,6 +796,9 @@ def pure_compare(before, after):
                 d2 = [x for x in r2 if x not in r1][:1]
                 msgs.append("printed names changed in %r (same URIs): %s -> %s" % (k1, d1, d2))
                 break
+    if len(before) > 3 and len(after) > 3 and before[3] != after[3] and not msgs:
+        msgs.append("ownership of the bundles changed (bundle objects, bundle.document, inherited namespace scope): %r -> %r"
+                    % ([x[1:] for x in before[3]], [x[1:] for x in after[3]]))
     return msgs
 
 
